@@ -13,7 +13,5 @@ func exceptionTable() []*Exception {
 		{Rule: "R1", Func: "(*memdb.Locks).UnLockMulti", Construct: "index l.locks[t_[(t_+1)]]", Reason: multi},
 		{Rule: "R1", Func: "(*memdb.Locks).RUnLockMulti", Construct: "index l.locks[t_[(t_+1)]]", Reason: multi},
 		{Rule: "R1", Func: "(*memdb.Locks).sortedLockPoses", Construct: "index t_[t_]", Reason: "poses has len(set) elements and the loop ranges over the same set, writing one element per map entry (i counts the iterations)"},
-		{Rule: "R1", Func: "resp.readLine", Construct: "index t_[(t_-1)]", Reason: "bulk branch: msg = make([]byte, state.bulkLen+2) with state.bulkLen >= 0 tested by the branch condition on the same goroutine-private state, so len(msg) >= 2; the prover does not identify two loads of a mutable field"},
-		{Rule: "R1", Func: "resp.readLine", Construct: "index t_[(t_-2)]", Reason: "bulk branch: len(msg) = state.bulkLen+2 >= 2 (see the sibling exception)"},
 	}
 }
